@@ -1,7 +1,7 @@
 """C16 - parallel STL (narrow, structural clauses)."""
 import re
 
-from gsa.cfg import Fn, S, is_call, walk, lit
+from gsa.cfg import Fn, S, is_call, walk, lit, stores
 from gsa import lock as L
 from gsa import race
 from . import wl_locks
@@ -97,10 +97,9 @@ def partition(ctx, fx):
         ctx.ob("C16.partition.serial-cleanup", P + "partition", not det, "; ".join(det), fn.loc(), "cleanup", fnkey=f["key"])
     for f in insts(fx, ST + "::update")[:2]:
         fn = ctx.fn(f)
-        asg = {(e["lp"], re.sub(r"\s", "", e.get("rp") or "")) for _, e in fn.events(lambda e: e.get("k") == "assign" and e.get("op") == "=")
-               if e["lp"].startswith("this->r")}
-        want = {("this->rfirst", "std::min(this->rfirst,low.first)"), ("this->rlast", "std::max(this->rlast,low.second)"),
-                ("this->rfirst", "std::min(this->rfirst,high.first)"), ("this->rlast", "std::max(this->rlast,high.second)")}
+        asg = {(t, re.sub(r"\s", "", v or "")) for _, t, op, v in stores(fn) if op == "=" and t.startswith("this->r")}
+        want = {("this->rfirst", "min(this->rfirst,low.first)"), ("this->rlast", "max(this->rlast,low.second)"),
+                ("this->rfirst", "min(this->rfirst,high.first)"), ("this->rlast", "max(this->rlast,high.second)")}
         got = {(a, b.replace("std::", "")) for a, b in asg}
         ok = got == {(a, b.replace("std::", "")) for a, b in want}
         ctx.ob("C16.partition.sentinel-consistent", ST + "::update", ok, "update assigns %s" % sorted(asg), fn.loc(), "update",
@@ -116,12 +115,12 @@ def partition(ctx, fx):
             if rets != {"make_pair(rv,(rv + BS))"}:
                 det.append("returns %s" % sorted(rets))
             if nm == "takeLow":
-                adv = lambda e: e.get("k") in ("assign", "call") and (e.get("lp") == "this->first" or (e.get("op") == "+=" and e.get("rp") == "this->first"))
+                adv = lambda e: (e.get("k") == "assign" and e.get("lp") == "this->first") or (e.get("k") == "call" and e.get("op") == "+=" and e.get("rp") == "this->first")
                 rv = lambda e: e.get("k") == "decl" and e.get("n") == "rv" and e.get("ip") == "this->first"
                 if fn.reaches_without(adv, rv) or not any(True for _ in fn.events(adv)) or not any(True for _ in fn.events(rv)):
                     det.append("low block is not [first, first + BS) with first advanced afterwards")
             else:
-                ret_ = lambda e: e.get("k") in ("assign", "call") and (e.get("lp") == "this->last" or (e.get("op") == "-=" and e.get("rp") == "this->last"))
+                ret_ = lambda e: (e.get("k") == "assign" and e.get("lp") == "this->last") or (e.get("k") == "call" and e.get("op") == "-=" and e.get("rp") == "this->last")
                 rv = lambda e: e.get("k") == "decl" and e.get("n") == "rv" and e.get("ip") == "this->last"
                 if fn.reaches_without(rv, ret_) or not any(True for _ in fn.events(ret_)) or not any(True for _ in fn.events(rv)):
                     det.append("high block is not [last - BS, last) with last retreated first")
@@ -143,7 +142,7 @@ def partition(ctx, fx):
         dp = [e for _, e in fn.events(is_call(name="dual_partition"))]
         if len(dp) != 1 or [S(x) for x in dp[0].get("a", [])][:4] != ["low.first", "low.second", "high.first", "high.second"]:
             det.append("dual_partition arguments")
-        asg = {(e["lp"], e.get("rp")) for _, e in fn.events(lambda e: e.get("k") == "assign" and e.get("lp") in ("low.first", "high.second"))}
+        asg = {(t, v) for _, t, op, v in stores(fn) if t in ("low.first", "high.second") and op == "="}
         if asg != {("low.first", "parts.first"), ("high.second", "parts.second")}:
             det.append("block bounds updated as %s" % sorted(asg))
         ctx.ob("C16.partition.block-claiming", PH + "::operator()", not det, "; ".join(det), fn.loc(), "worker", fnkey=f["key"])
@@ -168,7 +167,8 @@ def sorting(ctx, fx):
         if ss and fn.guarded_positions(lambda e: e is ss[0], small, True):
             det.append("serial sort not tied to the cut-off")
         fe = [e for _, e in fn.events(is_call(name="for_each"))]
-        if len(fe) != 1 or "make_pair(%s,%s)" % (first, last) not in S(fe[0]) or "sort_helper{%s}" % comp not in S(fe[0]).replace(" ", ""):
+        fes = S(fe[0]).replace(" ", "") if fe else ""
+        if len(fe) != 1 or "make_pair(%s,%s)" % (first, last) not in fes or "sort_helper{%s}" % comp not in fes:
             det.append("parallel phase does not start from the whole range with sort_helper(comp)")
         ctx.ob("C16.sort.shape", P + "sort", not det, "; ".join(det), fn.loc(), "sort", fnkey=f["key"])
     hs = insts(fx, P + "sort_helper::operator()")
